@@ -29,7 +29,7 @@ type crashOp struct {
 }
 
 var reHashPath = regexp.MustCompile(`[0-9a-f]{38,64}`)
-var reTmp = regexp.MustCompile(`(tmp_[a-z_]*|\.tmp/[a-z_-]*|incoming-)[0-9A-Za-z]+`)
+var reTmp = regexp.MustCompile(`(tmp_[a-z_]*|\.tmp/[a-z_.-]*|incoming-)[0-9A-Za-z]+`)
 var reLoose = regexp.MustCompile(`objects/[0-9a-f]{2}(/|$)`)
 
 func pathClass(p string) string {
@@ -184,6 +184,43 @@ func c21Ops(info repoInfo) []crashOp {
 		{name: "RemoveReference(loose)", gitdir: "/wt/.git", run: func(w *mcfs.World) error {
 			return openStorage(w, "/wt/.git", "git").RemoveReference("refs/heads/b")
 		}},
+		// --- added by the hole review (notes/C21-holes.md) ---
+		{name: "SetReference(new ref in a new directory)", gitdir: "/wt/.git", run: func(w *mcfs.World) error {
+			return openStorage(w, "/wt/.git", "git").SetReference(plumbing.NewHashReference("refs/heads/topic/deep/n", plumbing.NewHash(info.c1)))
+		}},
+		{name: "Commit(branch only in packed-refs)", gitdir: "/wt/.git", setup: func(w *mcfs.World) {
+			stage(w)
+			if err := openStorage(w, "/wt/.git", "setup").PackRefs(); err != nil {
+				fw.Abort("setup pack-refs: %v", err)
+			}
+			wt, _ := mustRepo(w, "/wt/.git", "/wt").Worktree()
+			if _, err := wt.Add("z"); err != nil {
+				fw.Abort("setup add: %v", err)
+			}
+		}, run: func(w *mcfs.World) error {
+			wt, err := mustRepo(w, "/wt/.git", "/wt").Worktree()
+			if err != nil {
+				return err
+			}
+			_, err = wt.Commit("msg\n", &git.CommitOptions{Author: fixedSig})
+			return err
+		}},
+		{name: "RemoveReference(loose value over a stale packed one)", gitdir: "/wt/.git", setup: func(w *mcfs.World) {
+			st := openStorage(w, "/wt/.git", "setup")
+			if err := st.PackRefs(); err != nil { // b -> c1 goes to packed-refs
+				fw.Abort("setup pack-refs: %v", err)
+			}
+			// b moves on: the loose file now shadows the packed line
+			if err := st.SetReference(plumbing.NewHashReference("refs/heads/b", plumbing.NewHash(info.c2))); err != nil {
+				fw.Abort("setup set-ref: %v", err)
+			}
+		}, run: func(w *mcfs.World) error {
+			return openStorage(w, "/wt/.git", "git").RemoveReference("refs/heads/b")
+		}},
+		{name: "Push(delete a packed ref on the receive-pack side)", gitdir: "/srv/r.git", run: func(w *mcfs.World) error {
+			return mustRepo(w, "/wt/.git", "/wt").Push(&git.PushOptions{RemoteName: "origin",
+				RefSpecs: []config.RefSpec{":refs/heads/b"}, ClientOptions: []client.Option{mcLoader(w)}})
+		}},
 		{name: "SetConfig", gitdir: "/wt/.git", run: func(w *mcfs.World) error {
 			st := openStorage(w, "/wt/.git", "git")
 			cfg, err := st.Config()
@@ -217,7 +254,7 @@ func journalSig(j []*mcfs.Op) string {
 }
 
 func runC21(c *fw.Ctx) {
-	c.SetRule("for each go-git mutation on a git-written client/server repository pair over mcfs: record the journal of mutating filesystem calls of one run; for EVERY prefix of it and, when the next call is a write of length L, every torn length in {0,1,L/2,L-1} (all when L<=16), synthesise the crash state from the journal (no re-execution), reopen with a fresh go-git storage and check: HEAD/index/config/shallow readable, references listable, each reference has its pre- or post-operation value and resolves, every object reachable from the references present in that state is readable; states go-git accepts are dumped and also judged by real `git fsck --connectivity-only` + `git for-each-ref` (every distinct state). distinct = distinct crash-state digests")
+	c.SetRule("for each go-git mutation on a git-written client/server repository pair over mcfs: record the journal of mutating filesystem calls of one run; for EVERY prefix of it and, when the next call is a write of length L, every torn length in {0,1,L/2,L-1} (all when L<=16), synthesise the crash state from the journal (no re-execution), reopen with a fresh go-git storage and check: HEAD/index/config/shallow readable, references listable, each reference has its pre- or post-operation value and resolves, every object reachable from the references present in that state is readable; states go-git accepts are dumped and also judged by real `git fsck --connectivity-only` + `git for-each-ref` (thorough: every distinct state; quick: for every operation the crash points at a fixed stride of its enumeration, at most 40 per operation, so that no operation goes unjudged). distinct = distinct crash-state digests")
 	c.Assume("process-crash model: every completed filesystem call persists, the call in flight may be torn; no power-loss reordering (go-git never calls fsync); map-iteration order inside one operation is the order that happened in the recorded run")
 	n, err := mcfs.Conformance(c.Scratch(), 2)
 	c.Must(err, "mcfs/osfs conformance")
@@ -231,6 +268,8 @@ func runC21(c *fw.Ctx) {
 	}
 	c.Bound("operations", names)
 	g := c.GitHome()
+	const gitPerOp = 40
+	c.Bound("quick_tier_states_judged_by_git_per_operation", gitPerOp)
 	var mu sync.Mutex
 	gitJudged := map[string]bool{}
 	gitSkipped := 0
@@ -303,6 +342,10 @@ func runC21(c *fw.Ctx) {
 			}
 		}
 		c.Sample(map[string]any{"operation": op.name, "journal_len": len(j), "crash_states": len(cps), "first_ops": opStrings(j, 6)})
+		gitStride := (len(cps) + gitPerOp - 1) / gitPerOp
+		if gitStride < 1 {
+			gitStride = 1
+		}
 		c.ParDo(len(cps), 0, func(i int) {
 			p := cps[i]
 			w := s0.Clone()
@@ -355,8 +398,11 @@ func runC21(c *fw.Ctx) {
 			// independent judgement by real git on every distinct state go-git accepts
 			mu.Lock()
 			seen := gitJudged[op.gitdir+digest]
-			if !seen && !c.Thorough() && len(gitJudged) >= 400 {
-				seen = true // quick tier: real git judges the first 400 distinct states only
+			if !seen && !c.Thorough() && i%gitStride != 0 {
+				// quick tier: real git judges, for EVERY operation, the crash points whose
+				// position in the operation's enumeration is a multiple of gitStride
+				// (<= gitPerOp per operation, chosen by position: the same states every run)
+				seen = true
 				gitSkipped++
 			} else {
 				gitJudged[op.gitdir+digest] = true
